@@ -48,6 +48,13 @@ import (
 func init() { subs["c02"] = c02 }
 
 func c02(c *Ctx) {
+	// a crash of the harness itself (a setup path outside Safe, on a tree whose store lies) must not lose the
+	// failures recorded so far: they are buffered until the sub-command returns
+	defer func() {
+		if r := recover(); r != nil {
+			c.Fail("c02/harness-crash", fmt.Sprintf("the harness panicked outside a guarded call: %v", r), nil)
+		}
+	}()
 	c02HashFields(c)
 	c02VerifyMinerSweep(c)
 	c02PanicProbe(c)
@@ -173,13 +180,26 @@ func c02VerifyMinerSweep(c *Ctx) {
 	heights := []uint32{1, 2, 5, 13, 14, 15, 20}
 	for i := 0; i < cases; i++ {
 		n0 := 1 + c.Rnd.Intn(5)
-		dm := deputynode.NewManager(9, c02NoBlocks{})
+		seats := 2 + c.Rnd.Intn(6) // sometimes fewer seats than ranked nodes: a term lists the top `seats` only
+		dm := deputynode.NewManager(seats, c02NoBlocks{})
 		t0 := c02Deputies(n0, 100)
 		t1 := c02Deputies(1+c.Rnd.Intn(5), 200)
 		dm.SaveSnapshot(0, t0)
 		dm.SaveSnapshot(10, t1)
 		h := heights[c.Rnd.Intn(len(heights))]
-		deps := dm.GetDeputiesByHeight(h, true)
+		// the governing list BY CONSTRUCTION: the generator made both terms; with T = 10, I = 3 (set above) term 1
+		// signs from height T+I+1 = 14 on. The manager's answer is only cross-checked.
+		deps := t0
+		if h >= 14 {
+			deps = t1
+		}
+		if len(deps) > seats {
+			deps = deps[:seats]
+			c.Count("vm:more-nodes-than-seats")
+		}
+		if got := dm.GetDeputiesByHeight(h, true); len(got) != len(deps) || (len(got) > 0 && got[0].MinerAddress != deps[0].MinerAddress) {
+			c.Fail("c02/fed-fact/term", fmt.Sprintf("Manager.GetDeputiesByHeight(%d) returns %d deputies (first %v); the generator saved terms of %d and %d deputies and term 1 governs heights >= 14", h, len(got), got, len(t0), len(t1)), nil)
+		}
 		n := len(deps)
 		rankOf := func(a common.Address) int {
 			for _, d := range deps {
@@ -266,6 +286,9 @@ type c02State struct {
 	txSeq    int
 	chainTxs types.Transactions // txs already packed in accepted honest blocks (for replays)
 	binfo    map[common.Hash]*c02BlockInfo
+	cons     *c02Construct
+	curLabel string
+	cands    []*ecdsa.PrivateKey
 }
 
 func (s *c02State) id(kind string, b []byte) int {
@@ -280,6 +303,7 @@ func (s *c02State) id(kind string, b []byte) int {
 
 func (s *c02State) deputyList(h uint32) string {
 	ds := s.n.DM.GetDeputiesByHeight(h, true)
+	s.depFact(h, ds, s.cands)
 	if len(ds) == 0 {
 		return "-"
 	}
@@ -328,18 +352,20 @@ func (s *c02State) facts(b *types.Block, now int64, ex c02Exec) string {
 	var kv []string
 	add := func(k, v string) { kv = append(kv, k+"="+v) }
 	exists, _ := n.DB.IsExistByHash(b.Hash())
+	s.exFact(b.Hash(), exists)
 	add("ex", map[bool]string{false: "0", true: "1"}[exists])
 	add("sh", fmt.Sprint(n.BC.StableBlock().Height()))
 	add("hd", fmt.Sprintf("%d,%d,%d,%d,%d,%d,%d,%d,%d,%d,%d,%d",
 		s.id("h", h.ParentHash[:]), s.id("a", h.MinerAddress[:]), s.id("h", h.VersionRoot[:]), s.id("h", h.TxRoot[:]), s.id("h", h.LogRoot[:]),
 		h.Height, h.GasLimit, h.GasUsed, h.Time, s.id("h", h.DeputyRoot), len(h.Extra), s.id("x", []byte(h.Extra))))
 	// recovered signer
-	sig := -1
+	// the signer by construction (the generator holds every key); Ecrecover is only cross-checked (c02/fed-fact/sig)
+	var recovered []byte
 	hash := h.Hash()
 	if pub, err := crypto.Ecrecover(hash[:], h.SignData); err == nil {
-		sig = s.id("n", pub[1:])
+		recovered = pub[1:]
 	}
-	add("sig", fmt.Sprint(sig))
+	add("sig", fmt.Sprint(s.sigFact(b, recovered)))
 	parent, err := n.DB.GetBlockByHash(h.ParentHash)
 	if err != nil {
 		add("par", "-")
@@ -372,11 +398,9 @@ func (s *c02State) facts(b *types.Block, now int64, ex c02Exec) string {
 			th := tx.Hash()
 			ids := fmt.Sprint(s.id("h", th[:]))
 			if tx.Type() == params.BoxTx {
-				if box, err := types.GetBox(tx.Data()); err == nil {
-					for _, sub := range box.SubTxList {
-						sh := sub.Hash()
-						ids += "+" + fmt.Sprint(s.id("h", sh[:])) + "@" + fmt.Sprint(sub.Expiration())
-					}
+				// sub list by construction (the slice the generator passed to txBox), GetBox only cross-checked
+				for _, sub := range s.subsFor(tx) {
+					ids += "+" + fmt.Sprint(s.id("h", sub.hash[:])) + "@" + fmt.Sprint(sub.exp)
 				}
 			}
 			parts = append(parts, fmt.Sprintf("%d:%s:%s", tx.Expiration(), ok, ids))
@@ -406,13 +430,31 @@ func (s *c02State) facts(b *types.Block, now int64, ex c02Exec) string {
 		}
 	}
 	add("anc", anc)
-	switch ex.kind {
-	case "ok":
-		ch := ex.computed.Header
-		ldr := ch.DeputyRoot
-		add("exec", fmt.Sprintf("ok:%d:%d:%d:%d:%d", s.id("h", ch.VersionRoot[:]), s.id("h", ch.LogRoot[:]), s.id("h", ch.TxRoot[:]), ch.GasUsed, s.id("h", ldr)))
-	default:
-		add("exec", ex.kind)
+	if rec := s.execFor(b); rec != nil {
+		s.c.Count("exec:by-construction")
+		// execution results BY CONSTRUCTION: the generator built a block with the same parent, height, time, miner,
+		// gas limit and transactions; whatever the validator-side RunBlock/Seal says is only cross-checked
+		add("exec", fmt.Sprintf("ok:%d:%d:%d:%d:%d", s.id("h", rec.vr[:]), s.id("h", rec.lr[:]), s.id("h", rec.tr[:]), rec.gu, s.id("h", rec.dr)))
+		if h.Height <= n.BC.StableBlock().Height() {
+			// the parent lies below the stable block: its account state can no longer be rebuilt (the store keeps the
+			// state of the stable block only), so a re-execution now says nothing. The engine ignores such a block.
+			s.c.Count("exec:by-construction:below-stable")
+		} else if ex.kind != "ok" {
+			s.c.Fail("c02/fed-fact/exec", fmt.Sprintf("re-execution of a block whose execution inputs equal those of a miner-built block says %q (height %d) [%s; record: %s]", ex.kind, h.Height, s.curLabel, rec.label), nil)
+		} else if ch := ex.computed.Header; ch.VersionRoot != rec.vr || ch.LogRoot != rec.lr || ch.TxRoot != rec.tr || ch.GasUsed != rec.gu {
+			s.c.Fail("c02/fed-fact/exec", fmt.Sprintf("re-execution (RunBlock+Seal) of a block whose execution inputs equal those of a miner-built block returns VersionRoot=%s LogRoot=%s TxRoot=%s GasUsed=%d, the miner-built block has %s %s %s %d (height %d)",
+				ch.VersionRoot.Prefix(), ch.LogRoot.Prefix(), ch.TxRoot.Prefix(), ch.GasUsed, rec.vr.Prefix(), rec.lr.Prefix(), rec.tr.Prefix(), rec.gu, h.Height)+fmt.Sprintf(" [%s; record: %s; header==record:%v header==computed:%v txs=%d]", s.curLabel, rec.label, h.VersionRoot == rec.vr, h.VersionRoot == ch.VersionRoot, len(b.Txs)), nil)
+		}
+	} else {
+		s.c.Count("exec:from-re-execution")
+		switch ex.kind {
+		case "ok":
+			ch := ex.computed.Header
+			ldr := ch.DeputyRoot
+			add("exec", fmt.Sprintf("ok:%d:%d:%d:%d:%d", s.id("h", ch.VersionRoot[:]), s.id("h", ch.LogRoot[:]), s.id("h", ch.TxRoot[:]), ch.GasUsed, s.id("h", ldr)))
+		default:
+			add("exec", ex.kind)
+		}
 	}
 	if len(b.ChangeLogs) == 0 {
 		add("blr", "-")
@@ -508,15 +550,26 @@ func (s *c02State) spec(b *types.Block, now int64, ex c02Exec) string {
 	if len(h.Extra) > 256 {
 		return "Extra"
 	}
-	hash := h.Hash()
-	pub, err := crypto.Ecrecover(hash[:], h.SignData)
-	if err != nil {
-		return "SignData"
+	// the signer: by construction when the generator made this signature over this header; otherwise whatever the
+	// bytes recover to, except that a key of this world is then a forgery
+	var signerID []byte
+	if id, known := s.signerFor(b); known {
+		signerID = id
+	} else {
+		hash := h.Hash()
+		pub, err := crypto.Ecrecover(hash[:], h.SignData)
+		if err != nil {
+			return "SignData"
+		}
+		if _, mine := s.con().world[string(pub[1:])]; mine {
+			return "SignData"
+		}
+		signerID = pub[1:]
 	}
 	deps := n.DM.GetDeputiesByHeight(h.Height, true)
 	signer := -1
 	for i, d := range deps {
-		if bytes.Equal(d.NodeID, pub[1:]) {
+		if bytes.Equal(d.NodeID, signerID) {
 			signer = i
 		}
 	}
@@ -594,21 +647,35 @@ func (s *c02State) spec(b *types.Block, now int64, ex c02Exec) string {
 			return "body-deputy-nodes"
 		}
 	}
-	if ex.kind != "ok" {
-		return "re-execution-fails"
-	}
-	ch := ex.computed.Header
-	if ch.VersionRoot != h.VersionRoot {
-		return "VersionRoot"
-	}
-	if ch.LogRoot != h.LogRoot {
-		return "LogRoot"
-	}
-	if ch.TxRoot != h.TxRoot {
-		return "TxRoot"
-	}
-	if ch.GasUsed != h.GasUsed {
-		return "GasUsed"
+	if rec := s.execFor(b); rec != nil {
+		// by construction: the miner-built block with the same execution inputs
+		switch {
+		case rec.vr != h.VersionRoot:
+			return "VersionRoot"
+		case rec.lr != h.LogRoot:
+			return "LogRoot"
+		case rec.tr != h.TxRoot:
+			return "TxRoot"
+		case rec.gu != h.GasUsed:
+			return "GasUsed"
+		}
+	} else {
+		if ex.kind != "ok" {
+			return "re-execution-fails"
+		}
+		ch := ex.computed.Header
+		if ch.VersionRoot != h.VersionRoot {
+			return "VersionRoot"
+		}
+		if ch.LogRoot != h.LogRoot {
+			return "LogRoot"
+		}
+		if ch.TxRoot != h.TxRoot {
+			return "TxRoot"
+		}
+		if ch.GasUsed != h.GasUsed {
+			return "GasUsed"
+		}
 	}
 	if gl, ok := s.honestGL[h.ParentHash]; ok && gl != h.GasLimit {
 		return "GasLimit"
@@ -670,6 +737,7 @@ func (s *c02State) runCase(m *types.Block, label string, honest bool, probe type
 		// chain's time to the wall clock): insert it as an observer
 		deputynode.SetSelfNodeKey(detKey("c02-observer"))
 	}
+	s.curLabel = label
 	ex := s.reexec(m)
 	now := time.Now().Unix()
 	facts := s.facts(m, now, ex)
@@ -745,10 +813,13 @@ func (s *c02State) runCase(m *types.Block, label string, honest bool, probe type
 			}
 			c.Fail(sig, fmt.Sprintf("a block satisfying every clause of the property was rejected [%s]", label), replay)
 		}
-		if verdict == "ignored" && !existed && m.Height() > n.BC.StableBlock().Height() {
+		if verdict == "ignored" && !s.con().accepted[mh] && m.Height() > n.BC.StableBlock().Height() {
+			c.Fail("c02/ignored-without-reason", fmt.Sprintf("a block the harness never saw accepted, above the stable height, was ignored [%s]", label), replay)
+		} else if verdict == "ignored" && !existed && m.Height() > n.BC.StableBlock().Height() {
 			c.Fail("c02/ignored-without-reason", fmt.Sprintf("block neither stored nor below the stable height was ignored [%s]", label), replay)
 		}
 	case "ok":
+		s.sawAccepted(mh)
 		if specClause == "tx-replay" && strings.HasPrefix(label, "restart:") {
 			c.Fail("c02/accepted-invalid/replayed-tx-after-restart", fmt.Sprintf("after a restart on the same database a block replaying a transaction of its own ancestor chain was accepted [%s]; head before=%s after=%s, balances at head before=%s after=%s", label, before["current"], after["current"], before["balances-at-head"], after["balances-at-head"]), replay)
 		}
@@ -833,6 +904,7 @@ func c02NewStateN(c *Ctx, nDep, maxDep int) *c02State {
 	for i := 0; i < 3; i++ {
 		s.users = append(s.users, detKey(fmt.Sprintf("c02-user-%d", i)))
 	}
+	c02AcceptHook = s.sawAccepted
 	return s
 }
 
@@ -844,7 +916,7 @@ func c02PanicProbe(c *Ctx) {
 	defer s.n.Close()
 	c.Op(fmt.Sprintf("params %d %d %d", params.TermDuration, params.InterimDuration, s.w.Timeout), "ok")
 	parent := s.n.BC.CurrentBlock()
-	blk, _, err := s.n.Build(parent, parent.Time()+1, nil, nil)
+	blk, _, err := s.build(parent, parent.Time()+1, nil, nil)
 	if err != nil {
 		panic(err)
 	}
@@ -862,7 +934,7 @@ func c02PanicProbe(c *Ctx) {
 	} {
 		m := CloneBlock(blk)
 		m.Header.Time = tc.t
-		Resign(m, tc.key)
+		s.resign(m, tc.key)
 		s.runCase(m, tc.label, false, nil)
 		c.Count("probe")
 	}
@@ -871,7 +943,7 @@ func c02PanicProbe(c *Ctx) {
 		m := CloneBlock(blk)
 		m.Header.Time = 1
 		m.Header.MinerAddress = keyAddr(k)
-		Resign(m, k)
+		s.resign(m, k)
 		s.runCase(m, fmt.Sprintf("probe Time=1 miner+signer=deputy-%d", i), false, nil)
 		c.Count("probe")
 	}
@@ -1021,7 +1093,9 @@ func c02Muts() []c02Mut {
 			if len(h.SignData) != 65 {
 				return false
 			}
-			h.SignData = malleate(h.SignData)
+			mal := malleate(h.SignData)
+			s.registerMalleated(h.SignData, mal)
+			h.SignData = mal
 			return true
 		}),
 		hdr("SignData:truncate", func(s *c02State, h *types.Header, _ *types.Block) bool {
@@ -1114,19 +1188,19 @@ func c02Muts() []c02Mut {
 			// a box that is itself inside the window, carrying a sub-tx that lives past block time + 30 min
 			s.txSeq++
 			sub := txTransfer(s.w.FounderKey, keyAddr(s.users[1]), lemo(3), TxOpt{Exp: uint64(m.Time()) + 1801 + uint64(s.c.Rnd.Intn(1700)), Msg: fmt.Sprintf("boxfar-%d", s.txSeq)})
-			m.Txs = append(m.Txs, txBox(s.w.FounderKey, types.Transactions{sub}, TxOpt{Exp: uint64(m.Time()) + 1 + uint64(s.c.Rnd.Intn(1799)), Msg: fmt.Sprintf("boxfar-box-%d", s.txSeq)}))
+			m.Txs = append(m.Txs, s.box(s.w.FounderKey, types.Transactions{sub}, TxOpt{Exp: uint64(m.Time()) + 1 + uint64(s.c.Rnd.Intn(1799)), Msg: fmt.Sprintf("boxfar-box-%d", s.txSeq)}))
 			return true
 		}},
 		{"Txs:add-box-sub-expired", func(s *c02State, m, _ *types.Block) bool {
 			s.txSeq++
 			sub := txTransfer(s.w.FounderKey, keyAddr(s.users[1]), lemo(3), TxOpt{Exp: uint64(m.Time()) - 1, Msg: fmt.Sprintf("boxexp-%d", s.txSeq)})
-			m.Txs = append(m.Txs, txBox(s.w.FounderKey, types.Transactions{sub}, TxOpt{Exp: uint64(m.Time()) + 60, Msg: fmt.Sprintf("boxexp-box-%d", s.txSeq)}))
+			m.Txs = append(m.Txs, s.box(s.w.FounderKey, types.Transactions{sub}, TxOpt{Exp: uint64(m.Time()) + 60, Msg: fmt.Sprintf("boxexp-box-%d", s.txSeq)}))
 			return true
 		}},
 		{"Txs:add-box-sub-before-box", func(s *c02State, m, _ *types.Block) bool {
 			s.txSeq++
 			sub := txTransfer(s.w.FounderKey, keyAddr(s.users[1]), lemo(3), TxOpt{Exp: uint64(m.Time()) + 30, Msg: fmt.Sprintf("boxbef-%d", s.txSeq)})
-			m.Txs = append(m.Txs, txBox(s.w.FounderKey, types.Transactions{sub}, TxOpt{Exp: uint64(m.Time()) + 60, Msg: fmt.Sprintf("boxbef-box-%d", s.txSeq)}))
+			m.Txs = append(m.Txs, s.box(s.w.FounderKey, types.Transactions{sub}, TxOpt{Exp: uint64(m.Time()) + 60, Msg: fmt.Sprintf("boxbef-box-%d", s.txSeq)}))
 			return true
 		}},
 		{"Txs:add-box", func(s *c02State, m, _ *types.Block) bool {
@@ -1134,7 +1208,7 @@ func c02Muts() []c02Mut {
 			s.txSeq++
 			be := uint64(m.Time()) + uint64(s.c.Rnd.Intn(1801))
 			sub := txTransfer(s.w.FounderKey, keyAddr(s.users[1]), lemo(3), TxOpt{Exp: be + uint64(s.c.Rnd.Intn(int(uint64(m.Time())+1800-be)+1)), Msg: fmt.Sprintf("boxok-%d", s.txSeq)})
-			m.Txs = append(m.Txs, txBox(s.w.FounderKey, types.Transactions{sub}, TxOpt{Exp: be, Msg: fmt.Sprintf("boxok-box-%d", s.txSeq)}))
+			m.Txs = append(m.Txs, s.box(s.w.FounderKey, types.Transactions{sub}, TxOpt{Exp: be, Msg: fmt.Sprintf("boxok-box-%d", s.txSeq)}))
 			return true
 		}},
 		{"Txs:add-wrong-chain", func(s *c02State, m, _ *types.Block) bool {
@@ -1319,25 +1393,25 @@ func (s *c02State) sign(m *types.Block, variant string, honestKey *ecdsa.Private
 	switch variant {
 	case "keep":
 	case "in-turn":
-		Resign(m, inTurn)
+		s.resign(m, inTurn)
 	case "in-turn-as-miner":
 		m.Header.MinerAddress = keyAddr(inTurn)
-		Resign(m, inTurn)
+		s.resign(m, inTurn)
 	case "wrong-turn":
 		k := other()
 		if k == nil {
 			return false
 		}
-		Resign(m, k)
+		s.resign(m, k)
 	case "wrong-turn-as-miner":
 		k := other()
 		if k == nil {
 			return false
 		}
 		m.Header.MinerAddress = keyAddr(k)
-		Resign(m, k)
+		s.resign(m, k)
 	case "outsider":
-		Resign(m, s.outsider)
+		s.resign(m, s.outsider)
 	}
 	return true
 }
@@ -1347,13 +1421,20 @@ func c02Campaign(c *Ctx) {
 	params.TermDuration, params.InterimDuration = 12, 4
 	defer func() { params.TermDuration, params.InterimDuration = oldT, oldI }()
 	nDep := 3
-	s := c02NewStateN(c, nDep, 5)
+	s := c02NewStateN(c, nDep, 4) // 4 seats: term 1 has 5 ranked candidates, so the seat limit of a term is exercised
+	s.con().seats = 4
 	defer func() { Safe(func() string { s.n.Close(); return "" }) }()
 	n, w := s.n, s.w
 	// two more candidates (account key = node key) register during term 0 and one of them resigns during term 1,
 	// so the deputy lists of terms 0, 1, 2 differ in size, members and ranks: a lookup in the wrong term is visible
 	cands := []*ecdsa.PrivateKey{detKey("c02-cand-0"), detKey("c02-cand-1")}
+	s.con().genesisDeps = nDep // before the candidates join the key list: the first nDep keys are the genesis deputies
+	s.con().campaign = true
+	s.cands = cands
 	w.DeputyKeys = append(w.DeputyKeys, cands...)
+	for i, k := range cands {
+		s.addWorldKey(k, fmt.Sprintf("candidate-%d", i))
+	}
 	c.Op(fmt.Sprintf("params %d %d %d", params.TermDuration, params.InterimDuration, w.Timeout), "ok")
 	muts := c02Muts()
 	observer := detKey("c02-observer")
@@ -1416,10 +1497,16 @@ func c02Campaign(c *Ctx) {
 			exp := uint64(t) + uint64([]int{0, 1, 60, 600, 1799, 1800}[c.Rnd.Intn(6)])
 			txs = append(txs, txTransfer(from, to, amt, TxOpt{Exp: exp, Msg: fmt.Sprintf("c02-%d", s.txSeq)}))
 		}
+		stepKind, stepIdx := "", 0
 		// candidate life cycle, decided from the STATE at the parent (idempotent over forks and rebases)
 		if !snapshotNext {
-			if tx := s.candidateStep(parent, cands, t); tx != nil {
+			if tx, kind, idx := s.candidateStep(parent, cands, t); tx != nil {
 				txs = append(txs, tx)
+				stepKind, stepIdx = kind, idx
+				// recorded when ISSUED: the step is decided from the state at the parent, so it is issued again until a
+				// valid child of some parent carries it; whichever valid child wins (the honest block or a variant of it,
+				// which keeps the transactions) sits at this height
+				s.noteCandidateStep(kind, idx, parent.Height()+1)
 			}
 		}
 		if n.DM.GetDeputiesCount(parent.Height()+1) == 0 {
@@ -1433,7 +1520,7 @@ func c02Campaign(c *Ctx) {
 			}
 			n.BC.InsertConfirms(parent.Height(), parent.Hash(), sigs)
 		}
-		blk, _, err := n.Build(parent, t, txs, nil)
+		blk, _, err := s.build(parent, t, txs, nil)
 		if err != nil {
 			c.Fail("c02/harness/build", fmt.Sprintf("cannot build an honest block at height %d: %v", parent.Height()+1, err), nil)
 			return
@@ -1470,7 +1557,7 @@ func c02Campaign(c *Ctx) {
 		// (roots recomputed by the miner), so only an explicit duplicate check could reject it
 		if len(txs) > 0 && c.Rnd.Intn(6) == 0 {
 			dupList := append(append(types.Transactions{}, txs...), txs[0])
-			if db, _, err := n.Build(parent, t, dupList, nil); err == nil {
+			if db, _, err := s.build(parent, t, dupList, nil); err == nil {
 				seen := map[common.Hash]bool{}
 				dup := false
 				for _, tx := range db.Txs {
@@ -1498,16 +1585,16 @@ func c02Campaign(c *Ctx) {
 			name := "lone-box-repeats-sub-tx"
 			switch c.Rnd.Intn(3) {
 			case 0:
-				list = types.Transactions{txBox(w.FounderKey, types.Transactions{sub, sub}, TxOpt{Exp: uint64(t) + 60, Msg: fmt.Sprintf("dbx-box-%d", s.txSeq)})}
+				list = types.Transactions{s.box(w.FounderKey, types.Transactions{sub, sub}, TxOpt{Exp: uint64(t) + 60, Msg: fmt.Sprintf("dbx-box-%d", s.txSeq)})}
 			case 1:
 				other := txTransfer(w.FounderKey, keyAddr(s.users[2%len(s.users)]), lemo(1), TxOpt{Exp: uint64(t) + 90, Msg: fmt.Sprintf("dbx-o-%d", s.txSeq)})
-				list = types.Transactions{txBox(w.FounderKey, types.Transactions{sub, other, sub}, TxOpt{Exp: uint64(t) + 60, Msg: fmt.Sprintf("dbx-box-%d", s.txSeq)})}
+				list = types.Transactions{s.box(w.FounderKey, types.Transactions{sub, other, sub}, TxOpt{Exp: uint64(t) + 60, Msg: fmt.Sprintf("dbx-box-%d", s.txSeq)})}
 				name = "lone-box-repeats-sub-tx-apart"
 			default:
-				list = types.Transactions{txBox(w.FounderKey, types.Transactions{sub}, TxOpt{Exp: uint64(t) + 60, Msg: fmt.Sprintf("dbx-box-%d", s.txSeq)}), sub}
+				list = types.Transactions{s.box(w.FounderKey, types.Transactions{sub}, TxOpt{Exp: uint64(t) + 60, Msg: fmt.Sprintf("dbx-box-%d", s.txSeq)}), sub}
 				name = "box-and-standalone-copy"
 			}
-			if db, _, err := n.Build(parent, t, list, nil); err == nil && len(db.Txs) == len(list) {
+			if db, _, err := s.build(parent, t, list, nil); err == nil && len(db.Txs) == len(list) {
 				c.Count("miner-built-dup:" + name)
 				deputynode.SetSelfNodeKey(observer)
 				s.runCase(db, "miner-built-dup:"+name, false, probe)
@@ -1532,17 +1619,17 @@ func c02Campaign(c *Ctx) {
 			}
 			be := bt + 1 + uint64(c.Rnd.Intn(1799))
 			all := []wcase{
-				{"box-sub-too-far", txBox(w.FounderKey, types.Transactions{mkSub(bt + 1801 + uint64(c.Rnd.Intn(1700)))}, TxOpt{Exp: be, Msg: fmt.Sprintf("mwb-%d", s.txSeq)}), true},
-				{"box-sub-too-far-by-1", txBox(w.FounderKey, types.Transactions{mkSub(bt + 1801)}, TxOpt{Exp: be, Msg: fmt.Sprintf("mwb-%d", s.txSeq)}), true},
-				{"box-sub-expired", txBox(w.FounderKey, types.Transactions{mkSub(bt - 1)}, TxOpt{Exp: bt - 1, Msg: fmt.Sprintf("mwb-%d", s.txSeq)}), true},
-				{"box-sub-before-box", txBox(w.FounderKey, types.Transactions{mkSub(bt + 5)}, TxOpt{Exp: bt + 60, Msg: fmt.Sprintf("mwb-%d", s.txSeq)}), true},
-				{"box-at-edges", txBox(w.FounderKey, types.Transactions{mkSub(bt + 1800)}, TxOpt{Exp: bt + uint64(c.Rnd.Intn(1801)), Msg: fmt.Sprintf("mwb-%d", s.txSeq)}), false},
+				{"box-sub-too-far", s.box(w.FounderKey, types.Transactions{mkSub(bt + 1801 + uint64(c.Rnd.Intn(1700)))}, TxOpt{Exp: be, Msg: fmt.Sprintf("mwb-%d", s.txSeq)}), true},
+				{"box-sub-too-far-by-1", s.box(w.FounderKey, types.Transactions{mkSub(bt + 1801)}, TxOpt{Exp: be, Msg: fmt.Sprintf("mwb-%d", s.txSeq)}), true},
+				{"box-sub-expired", s.box(w.FounderKey, types.Transactions{mkSub(bt - 1)}, TxOpt{Exp: bt - 1, Msg: fmt.Sprintf("mwb-%d", s.txSeq)}), true},
+				{"box-sub-before-box", s.box(w.FounderKey, types.Transactions{mkSub(bt + 5)}, TxOpt{Exp: bt + 60, Msg: fmt.Sprintf("mwb-%d", s.txSeq)}), true},
+				{"box-at-edges", s.box(w.FounderKey, types.Transactions{mkSub(bt + 1800)}, TxOpt{Exp: bt + uint64(c.Rnd.Intn(1801)), Msg: fmt.Sprintf("mwb-%d", s.txSeq)}), false},
 				{"tx-too-far", mkSub(bt + 1801), true},
 				{"tx-expired", mkSub(bt - 1), true},
 			}
 			wc := all[c.Rnd.Intn(len(all))]
 			list := append(append(types.Transactions{}, txs...), wc.tx)
-			if db, _, err := n.Build(parent, t, list, nil); err == nil {
+			if db, _, err := s.build(parent, t, list, nil); err == nil {
 				has := false
 				for _, tx := range db.Txs {
 					if tx.Hash() == wc.tx.Hash() {
@@ -1617,6 +1704,7 @@ func c02Campaign(c *Ctx) {
 		if v == "ok" {
 			s.chainTxs = append(s.chainTxs, blk.Txs...)
 			c.Count("honest:accepted")
+			_, _ = stepKind, stepIdx
 			if !forkRound {
 				lastHonest = blk
 			}
